@@ -274,6 +274,11 @@ def check_C19(tier, seed):
             pairs.append((t, t, "same"))
         for a_, b_ in zip(accl[:1500], accl[1:1501]):
             pairs.append((cases[a_], cases[b_], "neighbours"))
+        # the same tag written two ways (deferred leaves keep handle and suffix as written: equal only if both agree)
+        for a_, b_ in (("!!str a\n", "!<tag:yaml.org,2002:str> a\n"), ("- !!int 1\n", "- !<tag:yaml.org,2002:int> 1\n"),
+                       ("%TAG !e! tag:x,\n--- !e!ab c\n", "%TAG !e! tag:x,a\n--- !e!b c\n"), ("k: !local v\n", "k: !<!local> v\n"),
+                       ("%TAG !y! tag:yaml.org,2002:\n--- !y!str a\n", "!!str a\n"), ("{!!str a: !!int 1}\n", "{!<tag:yaml.org,2002:str> a: !<tag:yaml.org,2002:int> 1}\n")):
+            pairs.append((a_, b_, "tag-spelling"))
         pairs += [("port: 8080\n", "port: 8081\n", "edited"), ("[a, b]\n", "[c, d, e, f]\n", "edited"), ("- true\n- b\n", "- null\n- b\n", "edited"),
                   ("{a: 1}\n", "{a: 2}\n", "edited"), ("'x'\n", "'y'\n", "edited")]
         ep = run_bin("hx_c07", ["eqpair"], ["%s#%s" % (enc(a_), enc(b_)) for a_, b_, _ in pairs])
@@ -287,12 +292,12 @@ def check_C19(tier, seed):
             if "SKIP" in f:
                 continue
             kinds[kind + ("/equal" if f[0][:2] == "E1" else "/different")] = kinds.get(kind + ("/equal" if f[0][:2] == "E1" else "/different"), 0) + 1
-            for t, r in zip(("owned", "marked", "markedowned"), f[1:]):
-                if r[:2] != f[0][:2]:
-                    res.add_violation("equality of %s nodes is not the equality of the data (Yaml says %s, %s says %s)" % (t, f[0][:2], t, r[:2]),
-                                      dict(input=a_, other=b_, node=t, pair=kind), out=o)
-                elif r[:2] == "E1" and r[2:] != "H1":
-                    res.add_violation("equal %s nodes hash differently" % t, dict(input=a_, other=b_, node=t, pair=kind), out=o)
+            for t, r in zip(("yaml", "owned", "marked", "markedowned"), f):
+                if r[:2] != f[0][:2] or r[4:6] != f[0][4:6]:
+                    res.add_violation("equality of %s nodes is not the equality of the data (Yaml says %s/%s, %s says %s/%s)"
+                                      % (t, f[0][:2], f[0][4:6], t, r[:2], r[4:6]), dict(input=a_, other=b_, node=t, pair=kind), out=o)
+                elif (r[:2] == "E1" and r[2:4] != "H1") or (r[4:6] == "D1" and r[6:8] != "G1"):
+                    res.add_violation("equal %s nodes hash differently (E/H eager, D/G deferred)" % t, dict(input=a_, other=b_, node=t, pair=kind), out=o)
         counts["eq_pairs"] = kinds
         res.coverage["verdicts"] = counts
         # ---------------- (2) synthetic sentences ----------------
